@@ -1,0 +1,18 @@
+//go:build verif
+
+package aggchainproofclient
+
+import (
+	aggkitProverV1Grpc "buf.build/gen/go/agglayer/provers/grpc/go/aggkit/prover/v1/proverv1grpc"
+	aggkitgrpc "github.com/agglayer/aggkit/grpc"
+)
+
+// This file is only compiled with the `verif` build tag. It adds an entry point used by the
+// runtime-verification harness (/verif) and does not change any existing behaviour.
+
+// VerifNewAggchainProofClient builds the real client around a caller-supplied service client, so
+// that a fake prover service can capture the exact protobuf request.
+func VerifNewAggchainProofClient(cfg *aggkitgrpc.ClientConfig,
+	client aggkitProverV1Grpc.AggchainProofServiceClient) *AggchainProofClient {
+	return &AggchainProofClient{client: client, grpcClientCfg: cfg}
+}
